@@ -227,7 +227,7 @@ func (pm *ProtocolManager) rcvBlockLoop() {
 			log.Info("BlockLoop finished")
 			return
 		case block := <-pm.newMinedBlockCh:
-			log.Debugf("Current peers count: %d", len(pm.peers.peers))
+			log.Debugf("Current peers count: %d", pm.peers.Size())
 			peers := pm.peers.DeputyNodes(block.Height())
 			go pm.broadcastBlock(peers, block, true)
 		case rcvMsg := <-pm.rcvBlocksCh:
@@ -441,7 +441,7 @@ func (pm *ProtocolManager) peerLoop() {
 				pm.testOutput <- testForceSync
 			}
 		case <-discoverTimer.C: // time to discover
-			if len(pm.peers.peers) < params.LeastPeersToDiscover {
+			if pm.peers.Size() < params.LeastPeersToDiscover {
 				p := pm.peers.BestToDiscover()
 				if p != nil {
 					go p.SendDiscover()
